@@ -843,6 +843,10 @@ fn dump_adt<'tcx>(cx: &Cx<'tcx>, d: LocalDefId) -> J {
                                 ("head", cx.ty_head(fty)),
                                 ("vis", s(format!("{:?}", f.vis))),
                                 ("pub", J::Bool(f.vis.is_public())),
+                                (
+                                    "exported",
+                                    J::Bool(f.did.as_local().map_or(false, |l| tcx.effective_visibilities(()).is_reachable(l))),
+                                ),
                             ])
                         })
                         .collect(),
@@ -856,6 +860,10 @@ fn dump_adt<'tcx>(cx: &Cx<'tcx>, d: LocalDefId) -> J {
         ("path", s(cx.path(did))),
         ("kind", s(format!("{:?}", tcx.def_kind(did)))),
         ("pub", J::Bool(tcx.visibility(did).is_public())),
+        (
+            "exported",
+            J::Bool(did.as_local().map_or(false, |l| tcx.effective_visibilities(()).is_reachable(l))),
+        ),
         ("repr_int", opt(repr.int, |i| s(format!("{:?}", i)))),
         ("variants", J::Arr(variants)),
         ("span", cx.span(tcx.def_span(did))),
